@@ -23,7 +23,14 @@ for f in p.all_functions:
     for nm in names:
         d = f.param_default(nm) if not nm.startswith('*') else None
         if d is not None:
-            defs[nm] = _ast.unparse(d)
+            src = _ast.unparse(d)
+            # a default that names an imported constant is recorded under the constant's own dotted name (`maxsize` -> `sys.maxsize`),
+            # so that `import sys` + `sys.maxsize` is the same default later
+            if isinstance(d, (_ast.Name, _ast.Attribute)):
+                r = p.resolve_name(d.id, f.module) if isinstance(d, _ast.Name) else p.resolve_expr_static(d, f.module)
+                if r is not None and r[0] == 'ext' and isinstance(r[1], str):
+                    src = r[1]
+            defs[nm] = src
     if defs:
         out['#def:' + f.qualname.split('@')[0]] = defs
 dst = os.path.join(os.path.dirname(os.path.dirname(os.path.abspath(__file__))), 'sa', 'signatures.json')
